@@ -693,12 +693,11 @@ def instantiateExpr (t : List Stmt) (b : Bindings) : Except TemplErr Expr :=
           if isName r then .ok r else .error .notExpression
       | none => .ok (.name (startLabel b + 1) s c)
       | some _ => .error .notExpression
-  | [st] =>
-      match instS b st (startLabel b) with
+  | _ =>
+      match instSs b t (startLabel b) with
       | .ok ([.expr _ v], _) => .ok v
       | .ok _ => .error .notExpression
       | .error e => .error e
-  | _ => .error .notExpression
 
 /-! ## hypotheses of the `_partial` theorems, as decidable predicates (these are the finding classes) -/
 
